@@ -9,7 +9,7 @@ TIERS = {
     # (model cfgs, generator cfgs, concretisation variants)
     # (model cfgs, generator cfgs, concretisation variants per cfg)
     "quick": (["MV_peer_q.cfg", "MV_self_q.cfg", "MV_k_q.cfg"], ["MV_peer_q_gen.cfg", "MV_self_q_gen.cfg", "MV_k_q_gen.cfg"],
-              [[0, 1], [0], [0]]),
+              [[0, 1], [0, 2], [0]]),
     "thorough": (["MV_peer_t.cfg", "MV_self_t.cfg", "MV_k_t.cfg"],
                  ["MV_peer_t_gen.cfg", "MV_self_t_gen.cfg", "MV_k_t_gen.cfg"], [[0, 1, 2], [0, 1, 2], [0, 1]]),
 }
